@@ -966,6 +966,9 @@ static void register_shapes()
   SHAPE(cstr, cstr, cstr, cstr, cstr, cstr, cstr, cstr, cstr, cstr, cstr, cstr)
   SHAPE(cstr, str, cstr, sv, cstr, str, cstr, sv, cstr, str, cstr, sv, cstr, str)
   SHAPE(char[5], cstr, char[9], cstr, char[2], cstr, char[16], cstr, char[3], cstr, char[7], cstr, char[4], cstr)
+  // far beyond the size cache's inline capacity: the cache grows on the heap more than once within one statement
+  SHAPE(cstr, cstr, cstr, cstr, cstr, cstr, cstr, cstr, cstr, cstr, cstr, cstr, cstr, cstr, cstr, cstr, cstr, cstr, cstr, cstr, cstr, cstr, cstr, cstr, cstr, cstr)
+  SHAPE(cstr, char[5], cstr, char[9], cstr, char[5], cstr, char[9], cstr, char[5], cstr, char[9], cstr, char[5], cstr, char[9], cstr, char[5], cstr, char[9], cstr, char[5], cstr, char[9], cstr, char[5], cstr, char[9], cstr, char[5], cstr, char[9])
   SHAPE(int8_t, uint64_t, float, bool, char, int16_t, double, uint32_t, void const*, ut::PlainEnum)
   SHAPE(str, int32_t, vec<str>, std::optional<str>, std::map<str, str>, cstr, double)
 #endif
@@ -1069,6 +1072,31 @@ int main(int argc, char** argv)
     e.fn(e.name, r, reps);
   }
   if (g_mode == Mode::Alloc && !g_failed && CODEC_PART == 0) macro_families(r);
+  if (g_mode == Mode::Fmt && !g_failed && CODEC_PART == 0)
+  {
+    // the macro family that passes file / line / function at run time formats its message through a separate path
+    // (message and metadata travel in one buffer and are cut apart on the backend): same text, same sanitisation
+    for (uint32_t rep = 0; rep < reps * 4 && !g_failed; ++rep)
+    {
+      std::string const sarg = rand_string(r, false);
+      std::string const s2 = r.chance(1, 2) ? rand_string(r, false) : std::string{};
+      int const i = static_cast<int>(r.next());
+      std::string expected = fmtquill::format("rt [{}] code {} [{}]", sarg, i, s2);
+      if (!g_accept_all) expected = my_escape(expected);
+      recorder().clear();
+      LOG_RUNTIME_METADATA(g_logger, quill::LogLevel::Info, "some_file.cpp", 321, "some_function", "rt [{}] code {} [{}]", sarg, i, s2);
+      g_manual->poll();
+      std::vector<std::string> msgs;
+      for (auto const& e : recorder().snapshot()) if (e.kind == 'w') msgs.push_back(e.msg);
+      ++g_cases;
+      if (msgs.size() != 1 || msgs[0] != expected)
+      {
+        violation("C04", "async-message-differs-from-call-site-formatting", J{}.str("shape", "LOG_RUNTIME_METADATA(str, int, str)").str("got", msgs.empty() ? "<nothing>" : msgs[0].substr(0, 300)).str("want", expected.substr(0, 300)).unum("messages", msgs.size()).boolean("accept_all_chars", g_accept_all));
+        g_failed = true;
+      }
+    }
+    g_stats.sig("shapes", "LOG_RUNTIME_METADATA(str, int, str)");
+  }
   if (g_mode == Mode::Alloc) quill::Backend::stop();
   if (g_mode == Mode::Alloc && !g_failed && CODEC_PART == 0)
   {
